@@ -87,7 +87,41 @@ impl DayCase {
         Some(DayCase { p, l, rd, w })
     }
     pub fn from_json(v: &Value) -> Option<DayCase> {
-        v.get("req").and_then(|r| r.as_str()).and_then(DayCase::from_req)
+        v.get("req").and_then(|r| r.as_str()).and_then(DayCase::from_req).or_else(|| DayCase::from_fields(v))
+    }
+    /// a case written by hand: the readable fields of `to_json` without the bit-exact `req`
+    /// (`date` as yyyy-mm-dd; `angles`, `intervals`, `minutes`, `policy`, `round`, `asr`, `elev`, `weather` optional)
+    pub fn from_fields(v: &Value) -> Option<DayCase> {
+        if v.get("kind").and_then(|k| k.as_str()).map_or(false, |k| k != "day") {
+            return None;
+        }
+        let num = |k: &str| v.get(k).and_then(|x| x.as_f64());
+        let arr = |k: &str, n: usize, d: f64| -> Vec<f64> {
+            let a: Vec<f64> = v.get(k).and_then(|x| x.as_array()).map(|a| a.iter().filter_map(|x| x.as_f64()).collect()).unwrap_or_default();
+            if a.len() == n { a } else { vec![d; n] }
+        };
+        let date = v.get("date")?.as_str()?;
+        let mut it = date.splitn(3, '-');
+        let (y, m, d): (i32, u32, u32) = (it.next()?.parse().ok()?, it.next()?.parse().ok()?, it.next()?.parse().ok()?);
+        chrono::NaiveDate::from_ymd_opt(y, m, d)?;
+        let angles = v.get("angles").and_then(|x| x.as_array()).map(|a| a.iter().filter_map(|x| x.as_f64()).collect::<Vec<_>>()).filter(|a| a.len() == 3).unwrap_or(vec![18., 17., 1.5]);
+        let intervals = arr("intervals", 3, 0.);
+        let minutes = arr("minutes", 7, 0.);
+        let weather = match v.get("weather").and_then(|x| x.as_array()) {
+            Some(a) if a.len() == 2 => format!("{} {}", hx(a[0].as_f64()?), hx(a[1].as_f64()?)),
+            _ => "- -".to_string(),
+        };
+        let mut t = vec![
+            v.get("round").and_then(|x| x.as_str()).unwrap_or("N").to_string(),
+            v.get("asr").and_then(|x| x.as_u64()).unwrap_or(1).to_string(),
+            v.get("policy").and_then(|x| x.as_str()).unwrap_or("None").to_string(),
+            hx(num("policy_lat").unwrap_or(0.)),
+        ];
+        t.extend(angles.iter().chain(intervals.iter()).chain(minutes.iter()).map(|x| hx(*x)));
+        t.extend([hx(num("lat")?), hx(num("lon")?), hx(num("elev").unwrap_or(0.)), hx(num("gmt")?)]);
+        t.push(rd_of(y, m, d).to_string());
+        t.push(weather);
+        DayCase::from_req(&t.join(" "))
     }
     pub fn run(&self) -> Result<Day, ()> {
         catch_unwind(AssertUnwindSafe(|| prayer_times_dt(&self.p, self.l, date_of_rd(self.rd), self.w))).map_err(|_| ())
